@@ -47,3 +47,8 @@ Lemma down_ok_iff a b c d p e :
 Proof.
   unfold down_ok. rewrite !andb_true_iff, !N.eqb_eq. tauto.
 Qed.
+
+(* with the facts of the source as they are, "the observation agrees with the
+   model of handleLoop" and "the observation satisfies the property" coincide *)
+Lemma probe_agrees_here w q : probe_agrees after_tunnel_here w q = probe_ok w q.
+Proof. destruct w, q; vm_compute; reflexivity. Qed.
